@@ -1131,10 +1131,16 @@ def gen_core():
              "From Coq Require Import List Arith ZArith Bool.", "Import ListNotations.",
              "From PF Require Import Arr.", "From PFG Require Import GenLoops.", "", PRELUDE, ""]
     tree, reg = parse(SRC), {}
+    # one function that is no longer understood must not take the others (which belong to other properties) with it: it is left
+    # out, so that exactly the equality proofs that mention it (or a function calling it) stop compiling
     for spec in FUNCS:
-        if sum(isinstance(n, ast.FunctionDef) and n.name == spec["name"] for n in tree.body) != 1:
-            raise GenError(f"{SRC}: {spec['name']} is not defined exactly once")
-        text, info = Fn(spec, tree, reg).translate()
+        try:
+            if sum(isinstance(n, ast.FunctionDef) and n.name == spec["name"] for n in tree.body) != 1:
+                raise GenError(f"{SRC}: {spec['name']} is not defined exactly once")
+            text, info = Fn(spec, tree, reg).translate()
+        except GenError as e:
+            parts += ["(* NOT TRANSLATED: %s -- %s *)" % (spec["name"], str(e).replace("*)", "* )")), ""]
+            continue
         reg[spec["name"]] = info
         parts += [text, ""]
     return "\n".join(parts)
